@@ -22,6 +22,7 @@ import pendulum
 from harness import progs, tl
 from harness import universe as U
 from harness.core import st
+from harness import retry
 from harness.oracles import exc_bucket, json_plain, mutable_ids, snapshot
 
 ID = "C06"
@@ -198,9 +199,23 @@ def per_program(p):
         vs = U.values(p.spec, p.mat)
     except U._Exhausted:
         return
-    for _ in range(6):
+    for i_ in range(6):
         v = p.draw(vs)
         check_value(p, v, col, "plain")
+        if i_ in (1, 4):
+            # "the same on every call" - also the call after one that failed on this very object and was handled
+            pick = p.draw(st.integers(0, 10 ** 6))
+            r = retry.retry_after_failure(v, lambda o: tl.call(tl.marshal, o, t=p.T), pick)
+            if r is not None:
+                col.ev()
+                failed, want, got = r
+                col.label(f"retry:first-call-{'failed' if failed else 'passed'}")
+                if failed:
+                    col.nt(p.key + p.src(v) + "retry")
+                if got != want:
+                    col.violation("same-on-every-call", p.case(value=p.src(v), variant="retry", pick=pick),
+                                  f"T={p.mat.root_expr}: marshal failed on an invalid member, the member was repaired in place, the same call then "
+                                  f"{'raised ' + got[1] if got[0] == 'exc' else 'returned something else'}", bucket=f"retry|{got[0]}")
         flips = iter(p.draw(st.lists(st.booleans(), min_size=64, max_size=64)))
         sv = subclassify(p.spec, v, p.mat, lambda: next(flips, False))
         if snapshot(sv) != snapshot(v):
@@ -252,6 +267,12 @@ def replay(clause, case, col):
         import harness
         ns.update(pendulum=pendulum, harness=harness)
         v = eval(case["value"], ns)  # noqa: S307
+        if case.get("variant") == "retry":
+            r = retry.retry_after_failure(v, lambda o: tl.call(tl.marshal, o, t=p.T), case["pick"])
+            col.ev()
+            if r is not None and r[2] != r[1]:
+                col.violation("same-on-every-call", case, f"after a handled failure on this object: {r[2][0]}", bucket=f"retry|{r[2][0]}")
+            return
         check_value(p, v, col, case.get("variant", "plain"))
 
     progs.replay_program(case, col, per_case)
